@@ -7,7 +7,9 @@ NOTE = {
     "C02": "every well-formed document of every part delivered through the generated entry point functions and the multitest "
            "Contract impl; Handler/Return events (which handler, arguments by name, context, outcome, storage) judged by TLC; "
            "liveness of the machine (`Answered`: every delivered document is answered) checked under fairness on a small instance; "
-           "dispatch of bridged interface handlers on contracts with chain-custom types: response untouched, caller's context (bridge corpus of C11)",
+           "dispatch of bridged interface handlers on contracts with chain-custom types: response untouched, caller's context (bridge corpus of C11); "
+           "dispatch through a chain: every operation of the multitest histories (C12) runs the handler it names exactly once, also when the same "
+           "query is asked again after the chain alone has moved",
     "C03": "every well-formed document of every part plus malformed derivatives (unknown/near-miss names, {}, two keys, duplicate key, "
            "non-objects, missing/ill-typed/extra members, non-object body) decoded by the contract-level message and by each part; "
            "relation judged by TLC on WrapperDecode events",
@@ -26,7 +28,11 @@ def run(prop, tier, seed, replay):
         # dispatch on a contract with chain-custom types (bridged interface handlers): the response and the context, judged as C02
         from . import c11
 
+        from . import c12
+
         def extra(rep):
             cov = c11.bridge(prop, tier, seed, rep)
-            return {"bridged_dispatches_judged": cov["traces_validated_against_impl"]}
+            # dispatch through a chain (the multitest histories of C12): every operation runs the handler it names exactly once
+            mt = c12.multitest(prop, tier, seed, rep)
+            return {"bridged_dispatches_judged": cov["traces_validated_against_impl"], "multitest_operations_judged": mt["operations"]}
     return routing.run_property(prop, tier, seed, NOTE[prop], extra=extra)
